@@ -123,3 +123,19 @@ func init() {
 		mutant{Name: "map-key-evaluated-while-assigning", Prop: "C04", File: "interp/run.go", Old: "\t\t\tif ivalue[i] != nil {\n\t\t\t\tmaps[i].SetMapIndex(keys[i], t[i]) // Assign a map entry\n", New: "\t\t\tif j := ivalue[i]; j != nil {\n\t\t\t\td(f).SetMapIndex(j(f), t[i]) // Assign a map entry\n", Rule: "R04.16", Key: "assign/closure"},
 	)
 }
+
+func init() {
+	addMutants(
+		// D87-D89 reverted
+		mutant{Name: "iota-counts-names", Prop: "C03", File: "interp/gta.go", Old: "\t\t\t\t\tif i == n.nleft-1 {\n\t\t\t\t\t\t// All the constants of the specification are defined.\n\t\t\t\t\t\tif childPos(n) == len(n.anc.child)-1 {\n\t\t\t\t\t\t\tsc.iota = 0\n\t\t\t\t\t\t} else {\n\t\t\t\t\t\t\tsc.iota++\n\t\t\t\t\t\t}\n\t\t\t\t\t}\n", New: "\t\t\t\t\tif childPos(n) == len(n.anc.child)-1 {\n\t\t\t\t\t\tsc.iota = 0\n\t\t\t\t\t} else {\n\t\t\t\t\t\tsc.iota++\n\t\t\t\t\t}\n", Rule: "R03.5", Key: "Interpreter.gta/iota"},
+		mutant{Name: "implicit-repetition-at-the-first-name", Prop: "C03", File: "interp/ast.go", Old: " && n.anc.nright == 0 && len(n.anc.child) == n.anc.nleft {", New: " && n.anc.nright == 0 {", Rule: "R03.15", Key: "ast/implicit-repetition/after-the-last-name"},
+		mutant{Name: "goroutine-function-value-read-late", Prop: "C08", File: "interp/run.go", Old: "\t\t\t\tbf = fixArg(bf)\n", New: "", Rule: "R08.9", Key: "call/go#1/function-value-copied:bf"},
+		mutant{Name: "goroutine-compiled-function-value-read-late", Prop: "C08", File: "interp/run.go", Old: "\t\t\tgo callFn(fixArg(value(f)), in)\n", New: "\t\t\tgo callFn(value(f), in)\n", Rule: "R08.9", Key: "callBin/go#1"},
+	)
+}
+
+func init() {
+	addMutants(
+		mutant{Name: "benign-goroutine-function-value-copied-inline", Prop: "C08", File: "interp/run.go", Old: "\t\t\t\tbf = fixArg(bf)\n", New: "\t\t\t\tbfc := reflect.New(bf.Type()).Elem()\n\t\t\t\tbfc.Set(bf)\n\t\t\t\tbf = bfc\n", Benign: true},
+	)
+}
